@@ -54,12 +54,17 @@ SEEDS = [
 	b'GET / HTTP/1.1\r\nHost: h\r\nConnection: Upgrade, HTTP2-Settings\r\nUpgrade: h2c\r\nHTTP2-Settings: AAMAAABkAAQAAP__\r\n\r\n',
 	b'POST / HTTP/1.1\r\nHost: h\r\nContent-Type: multipart/form-data; boundary="x y"; name*0=a; name*1=b; f*=utf-8\'\'%C3%A9\r\nContent-Length: 0\r\n\r\n',
 	b'GET / HTTP/1.0\r\n\r\n',
+	# a trailer announced and none sent; announced twice; sent empty
+	b'POST /p HTTP/1.1\r\nHost: h\r\nTransfer-Encoding: chunked\r\nTrailer: X-T\r\n\r\n5\r\nhello\r\n0\r\n\r\n',
+	b'POST /p HTTP/1.1\r\nHost: h\r\nTransfer-Encoding: chunked\r\nTrailer: X-T, X-U\r\n\r\n0\r\nX-U:\r\n\r\n',
+	b'POST /p HTTP/1.1\r\nHost: h\r\nTransfer-Encoding: chunked\r\nTrailer:\r\n\r\n0\r\n\r\n',
 ]
 CSEEDS = [
 	b'HTTP/1.1 200 OK\r\nContent-Type: text/html\r\nContent-Length: 2\r\n\r\nhi',
 	b'HTTP/1.1 200 OK\r\nTransfer-Encoding: chunked\r\nTrailer: Expires\r\n\r\n2\r\nhi\r\n0\r\nExpires: 0\r\n\r\n',
 	b'HTTP/1.0 404 Not Found\r\nSet-Cookie: a=b; Path=/\r\nContent-Encoding: gzip\r\nContent-Length: %d\r\n\r\n%s' % (len(gzipmod.compress(b'x')), gzipmod.compress(b'x')),
 	b'HTTP/1.1 204 No Content\r\nDate: Sun, 06 Nov 1994 08:49:37 GMT\r\n\r\n',
+	b'HTTP/1.1 200 OK\r\nTransfer-Encoding: chunked\r\nTrailer: Expires\r\n\r\n2\r\nhi\r\n0\r\n\r\n',
 ]
 
 
